@@ -1818,7 +1818,8 @@ example :
     ∧ threadLocalsPureCaches { threadLocals := 1, statics := [], threadLocalTables :=
       [{ fns := [{ ops := [.insert], sharedAfterLookup := false }, { ops := [.lookup], sharedAfterLookup := false }] }] } = false
     ∧ threadLocalsPureCaches { threadLocals := 1, statics := [], threadLocalTables :=
-      [{ fns := [{ ops := [.other], sharedAfterLookup := true }] }] } = false := by
+      [{ fns := [{ ops := [.other], sharedAfterLookup := true }] }] } = false
+    ∧ threadLocalsPureCaches { threadLocals := 0, statics := [], threadIdUses := 1 } = false := by
   decide
 
 /-- non-vacuity of `pure_cache_thread_independent`: a coherent state with a warm and a cold thread -/
